@@ -486,7 +486,9 @@ impl StateCheck for C17 {
                 }
                 for (k, v) in &plains[0].scalars {
                     let Some(w) = p.scalars.get(k).copied() else { continue };
-                    if (v - w).abs() > 0.011 + 1e-6 * v.abs() && !(v.is_nan() && w.is_nan()) {
+                    // one unit of the last printed digit (C_ep has one decimal, the rest two)
+                    let unit = if k.starts_with("cep_") { 0.11 } else { 0.011 };
+                    if (v - w).abs() > unit + 1e-6 * v.abs() && !(v.is_nan() && w.is_nan()) {
                         out.viol("report_does_not_vary_between_runs", &[], "repeat", format!("{k}={w}"), format!("{v}"));
                     }
                 }
